@@ -61,7 +61,8 @@ fn form_for(lay: &Layout, text: &str, k: usize, form: &str, lib: bool) -> String
         let (b, _) = lay.toks[k - 1];
         let (_, e) = lay.toks[k - 1];
         // ... and a '/' token directly followed by a comment would lex as a different comment
-        if text[b..].starts_with('\\') || (text[..e].ends_with('/') && form.starts_with('/')) {
+        // (a form that itself starts with white space ends the identifier just as well)
+        if (text[b..].starts_with('\\') && !form.starts_with(|c: char| c.is_ascii_whitespace())) || (text[..e].ends_with('/') && form.starts_with('/')) {
             return format!(" {}", form);
         }
     }
